@@ -4,7 +4,7 @@ from .. import engine as E
 from .. import catalogue as K
 from .. import stages as S2
 
-THEOREMS = ["c03_causal", "c03_failfast_first", "c03_stop_ends_the_work"]
+THEOREMS = ["c03_causal", "c03_failfast_first", "c03_stop_ends_the_work", "c03_stop_next"]
 
 
 def run(ctx, H):
